@@ -498,7 +498,7 @@ def run(tier: str, seed: int, replay=None) -> int:
                nontrivial=_life_nontrivial, workers=W, chunk=1500)
 
     # ---- 3. spec -> code ----------------------------------------------------------------------------------
-    tiny = _tiny_scenarios(layer_states, rng, all_combos=not quick, n_states=3500 if quick else 0,
+    tiny = _tiny_scenarios(layer_states, rng, all_combos=not quick, n_states=2500 if quick else 0,
                            n_predict_mau=40 if quick else 400)
     approx = _approx_scenarios(approx_states, rng, n_predict=40 if quick else 400)
     e_tiny, e_approx = _edge_scenarios(edge_states, rng, n_predict=40 if quick else 300)
